@@ -17,7 +17,10 @@ go build ./... || { echo "$P-$X: DOES-NOT-BUILD"; git checkout -q -- .; rm -f se
 go test -vet=off -count=1 -run 'TestSeedDemo' . > /tmp/seedout/$P/$X/demo_mut.log 2>&1; RC_MUT=$?
 rm -f seed_demo_test.go
 go test -vet=off -count=1 ./... > /tmp/seedout/$P/$X/suite_mut.log 2>&1; RC_SUITE=$?
-if [ $RC_SUITE -ne 0 ]; then go test -vet=off -count=1 ./... > /tmp/seedout/$P/$X/suite_mut.log 2>&1; RC_SUITE=$?; fi
+for try in 1 2 3; do
+  # the repository's proxy/TLS dial tests flake under load on the pristine tree as well: retry
+  if [ $RC_SUITE -ne 0 ]; then sleep 2; go test -vet=off -count=1 ./... > /tmp/seedout/$P/$X/suite_mut.log 2>&1; RC_SUITE=$?; fi
+done
 git checkout -q -- .; git clean -fdq
 echo "$P-$X: demo_clean=$RC_CLEAN demo_mut=$RC_MUT suite_mut=$RC_SUITE"
 if [ $RC_CLEAN -eq 0 ] && [ $RC_MUT -ne 0 ] && [ $RC_SUITE -eq 0 ]; then
